@@ -42,6 +42,7 @@ ViewMatches(s, ep, v) ==
   /\ SetOf(v.expd) = ExpiredIter(s, ep)
   /\ SetOf(v.srch) = Searchable(s, ep)
   /\ SetOf(v.garb) = GarbageSet(s)
+  /\ SetOf(v.cnrs) = {c \in Cnrs : s.bkt[c]}          \* DB.Containers(): containers that have a metadata bucket
 
 \* Known-finding classes of counter drift: a (pre-state, event) predicate and the fields it may disturb.
 \* The fields stay suspended for the rest of the script because floor-at-zero arithmetic makes later
@@ -87,7 +88,7 @@ ExpectedView(s, ep) ==
   [ex |-> [i \in IDs |-> ExistsRes(s, ep, i)], get |-> [i \in IDs |-> GetRes(s, ep, i)],
    lk |-> [i \in IDs |-> LockedRes(s, ep, i)], ec |-> [i \in IDs |-> ECRes(s, ep, i)],
    blob |-> [i \in IDs |-> s.blob[i]], list |-> SortedSeq(Listed(s)), expd |-> SortedSeq(ExpiredIter(s, ep)),
-   srch |-> SortedSeq(Searchable(s, ep)), garb |-> SortedSeq(GarbageSet(s))]
+   srch |-> SortedSeq(Searchable(s, ep)), garb |-> SortedSeq(GarbageSet(s)), cnrs |-> SortedSeq({c \in Cnrs : s.bkt[c]})]
 Expected(e) == LET r == Result(e) ep == IF e.ev = "Tick" THEN epoch + 1 ELSE epoch IN
   [l |-> l, res |-> r.res, v |-> ExpectedView(r.s, ep),
    protected |-> SortedSeq({i \in IDs : Protected(S, epoch, i)}),
